@@ -14,7 +14,7 @@ LEVEL = "proof"
 
 
 def worker(hashseed, seed, n):
-    env = dict(os.environ, PYTHONHASHSEED=str(hashseed), PYTHONPATH="/repo/src:" + core.ROOT, PYTHONDONTWRITEBYTECODE="1")
+    env = dict(os.environ, PYTHONHASHSEED=str(hashseed), PYTHONPATH=core.REPO + "/src:" + core.ROOT, PYTHONDONTWRITEBYTECODE="1")
     p = subprocess.run([core.PY, "-m", "harness.det_worker", str(seed), str(n)], cwd=core.ROOT, env=env,
                        capture_output=True, text=True, timeout=1500)
     line = [l for l in p.stdout.splitlines() if l.startswith("[")]
